@@ -19,3 +19,11 @@
 ; spec oncurve (Int Int Int) Bool
 ; elliptic.Curve.IsOnCurve as a relation on mathematical integers
 (declare-fun oncurve (Int Int Int) Bool)
+; spec aeadoh (Int) Int
+; Overhead() of a cipher.AEAD value (by interface identity)
+(declare-fun aeadoh (Int) Int)
+(assert (forall ((a Int)) (! (and (>= (aeadoh a) 0) (<= (aeadoh a) 1024)) :pattern ((aeadoh a)))))
+; spec bsize (Int) Int
+; BlockSize() of a cipher.BlockMode / cipher.Block value (by interface identity)
+(declare-fun bsize (Int) Int)
+(assert (forall ((a Int)) (! (and (>= (bsize a) 1) (<= (bsize a) 1024)) :pattern ((bsize a)))))
